@@ -1,5 +1,5 @@
 From CubedV Require Import Model.Util Model.Keys Model.Fusion Model.Memory Model.Dag Model.AllocTrace.
-From CubedV Require Import Proofs.MemoryProofs Proofs.AllocProofs.
+From CubedV Require Import Proofs.MemoryProofs Proofs.AllocProofs Proofs.FusedTreeProofs.
 Local Open Scope Z_scope.
 
 (* T0: for a task whose every argument is one block or a stream of blocks, the modelled peak
@@ -81,3 +81,54 @@ Theorem C03_compressed_write_within_when_inputs_cover : forall rc wc args extra 
   task_peak rc (wc + 1) args extra out <= formula rc wc args extra out.
 Proof. exact (compressed_write_within_when_inputs_cover). Qed.
 Print Assumptions C03_compressed_write_within_when_inputs_cover.
+
+(* D25 (known finding): a fused task as the implementation runs it - all input blocks read first and
+   held, the nested fused function evaluated with its intermediates alive (Model.AllocTrace.ftree;
+   tied to measured peaks and to cubed's fused projections by the correspondence
+   fused_fold_peak_and_projection).  The earlier theorem C03_fused_peak_bounded is about the
+   modeller's own view (each predecessor runs to completion and frees its inputs), which the
+   implementation does not follow. *)
+Theorem C03_nested_fused_refuted : tree_task_peak 1 1 (right_fold 1 3) > tree_projected 1 1 (right_fold 1 3).
+Proof. exact (nested_fused_refuted). Qed.
+Print Assumptions C03_nested_fused_refuted.
+
+Theorem C03_right_fold_peak : forall x n, 0 < x -> (1 <= n)%nat ->
+  tree_task_peak 1 1 (right_fold x n) = (2 * Z.of_nat n + 3) * x.
+Proof. exact (right_fold_peak). Qed.
+Print Assumptions C03_right_fold_peak.
+
+Theorem C03_right_fold_projected : forall x n, 0 < x -> (1 <= n)%nat ->
+  tree_projected 1 1 (right_fold x n) = (Z.of_nat n + 5) * x.
+Proof. exact (right_fold_projected). Qed.
+Print Assumptions C03_right_fold_projected.
+
+Theorem C03_left_fold_peak : forall x n, 0 < x -> (1 <= n)%nat ->
+  tree_task_peak 1 1 (left_fold x n) = (Z.of_nat n + 4) * x.
+Proof. exact (left_fold_peak). Qed.
+Print Assumptions C03_left_fold_peak.
+
+Theorem C03_left_fold_projected : forall x n, 0 < x -> (1 <= n)%nat ->
+  tree_projected 1 1 (left_fold x n) = 6 * x.
+Proof. exact (left_fold_projected). Qed.
+Print Assumptions C03_left_fold_projected.
+
+(* the under-projection is not bounded: it grows by one chunk per additional term *)
+Theorem C03_fold_overrun_grows : forall x n, 0 < x -> (3 <= n)%nat ->
+  tree_task_peak 1 1 (right_fold x n) - tree_projected 1 1 (right_fold x n) = (Z.of_nat n - 2) * x /\
+  tree_task_peak 1 1 (left_fold x n) - tree_projected 1 1 (left_fold x n) = (Z.of_nat n - 2) * x.
+Proof. exact (fold_overrun_grows). Qed.
+Print Assumptions C03_fold_overrun_grows.
+
+(* a projection that is safe for every fused function whose root is an operation: all input blocks
+   with their read copies, every intermediate, the write copies of the result (as first stated, for
+   every tree, it is false of a bare input block when rc = 0: safe_projection_bounds_refuted) *)
+Theorem C03_safe_projection_bounds : forall rc wc e o cs, 0 <= rc -> 0 <= wc -> tree_ok (FOp e o cs) ->
+  tree_task_peak rc wc (FOp e o cs)
+  <= sumz (map (fun b => b * (rc + 1)) (leaves (FOp e o cs))) + total_alloc (FOp e o cs) + fsize (FOp e o cs) * wc.
+Proof. exact (safe_projection_bounds_partial). Qed.
+Print Assumptions C03_safe_projection_bounds.
+
+Example C03_ex_right_fold_4_terms : (tree_task_peak 1 1 (right_fold 1 3), tree_projected 1 1 (right_fold 1 3)) = (9, 8).
+Proof. vm_compute; reflexivity. Qed.
+Example C03_ex_left_fold_4_terms : (tree_task_peak 1 1 (left_fold 1 3), tree_projected 1 1 (left_fold 1 3)) = (7, 6).
+Proof. vm_compute; reflexivity. Qed.
